@@ -67,6 +67,7 @@ type vTransform struct {
 	calls int
 	ended int
 	fail  bool
+	modes []int // per call mode (overrides mode when set)
 }
 
 func (t *vTransform) GetConfig() map[string]interface{} { return map[string]interface{}{"Type": "VerifTransform"} }
@@ -78,7 +79,11 @@ func (t *vTransform) transformEntities(runner *Runner, entities []*server.Entity
 	if t.fail {
 		return nil, errors.New("transform failure")
 	}
-	switch t.mode {
+	mode := t.mode
+	if t.calls-1 < len(t.modes) {
+		mode = t.modes[t.calls-1]
+	}
+	switch mode {
 	case 1:
 		return []*server.Entity{}, nil
 	case 2:
